@@ -1,5 +1,5 @@
 """C13 — UTF-8 validation matches the Unicode definition on every engine."""
-import os, re
+import hashlib, os, re
 
 _ROOT = os.path.dirname(os.path.dirname(os.path.dirname(os.path.abspath(__file__))))
 _REPO = os.environ.get("VERIF_REPO", "/repo")
@@ -39,6 +39,21 @@ def _synthesize():
                     parts.append(x.group(0).replace("b'\\n'", "0x0A"))
             if len(parts) == 4:
                 out.append("fn utf8_newline_mask(word: u64) -> u64 {\n    " + "\n    ".join(parts) + "\n    mask\n}")
+            # how the line count is accumulated.  (a) the one `line += <expr>;` of the word loop is
+            # translated (`utf8_line_inc`, used by the model); the fn is only emitted when the function
+            # has exactly the expected shape: one such statement in the word loop, one `line += 1;` in the
+            # byte loop, none after the loops - otherwise the extractor reports a translation problem.
+            # (b) the whole function (comments stripped, whitespace normalised) is pinned by a hash
+            # constant that Props/C13.line_and_column_source_pinned compares against the text the model
+            # was written from: ANY change to `line_and_column` breaks that obligation.
+            nc = " ".join(re.sub(r"//[^\n]*", "", body).split())
+            out.append("const UTF8_LINECOL_SRC_HASH: u64 = 0x%s;" % hashlib.sha256(nc.encode()).hexdigest()[:15])
+            loop = re.search(r"while pos \+ 8 <= prefix\.len\(\) \{(.*?)\n    \}\n", body, re.S)
+            if loop:
+                incs = re.findall(r"\bline \+= ([^;]+);", loop.group(1))
+                allincs = re.findall(r"\bline \+= ([^;]+);", body)
+                if len(incs) == 1 and sorted(allincs) == sorted([incs[0], "1"]):
+                    out.append("fn utf8_line_inc(mask: u64) -> u64 {\n    %s\n}" % incs[0])
         # broadword accepts: `let hi = word & HI;` and `block & HI`
         mm = re.search(r"fn accepts\b.*?(let hi = [^;]+;)", w, re.S)
         if mm:
@@ -99,7 +114,7 @@ CFG = {
                    "SuccinctlyVerif/Proof/Utf8Prefix.lean", "SuccinctlyVerif/Proof/Utf8LineCol.lean",
                    "SuccinctlyVerif/Proof/Utf8RoundTrip.lean", "SuccinctlyVerif/Proof/Utf8SpecLink.lean",
                    "SuccinctlyVerif/Model/Utf8.lean", "SuccinctlyVerif/Spec/Utf8.lean"],
-    "required_theorems": ["SV.Props.C13.scalar_ok_iff", "SV.Props.C13.avx2_accept_iff", "SV.Props.C13.simd_engine_agrees", "SV.Props.C13.broadword_accept_iff", "SV.Props.C13.engines_agree", "SV.Props.C13.validPrefixLen_spec", "SV.Props.C13.error_linecol", "SV.Props.C13.decode_encode", "SV.Props.C13.encode_decode",
+    "required_theorems": ["SV.Props.C13.scalar_ok_iff", "SV.Props.C13.avx2_accept_iff", "SV.Props.C13.simd_engine_agrees", "SV.Props.C13.broadword_accept_iff", "SV.Props.C13.engines_agree", "SV.Props.C13.validPrefixLen_spec", "SV.Props.C13.error_linecol", "SV.Props.C13.line_and_column_source_pinned", "SV.Props.C13.line_increment_generated_eq", "SV.Props.C13.decode_encode", "SV.Props.C13.encode_decode",
                           "SV.Props.C13.encode_eq_spec", "SV.Props.C13.decode_eq_spec", "SV.Props.C13.spec_decode_encode",
                           "SV.Props.C13.error_kind_and_offset_partial", "SV.Props.C13.error_offset_refuted",
                           "SV.Props.C13.lanes_generated_eq"],
@@ -124,9 +139,13 @@ EXTRACT = {
         ("check_block", "src/text/utf8/simd_x86.rs", "check_block",
          {"inputs": ["chunk", "prev1", "prev2", "prev3"], "outputs": ["err"]}),
     ],
+    "consts": [
+        ("UTF8_LINECOL_SRC_HASH", _REL, "UTF8_LINECOL_SRC_HASH"),
+    ],
     "kernels": [
         ("utf8_non_ascii", _REL, "utf8_non_ascii", None),
         ("utf8_newline_mask", _REL, "utf8_newline_mask", None),
+        ("utf8_line_inc", _REL, "utf8_line_inc", None),
         ("utf8_bw_hi", _REL, "utf8_bw_hi", None),
         ("utf8_bw_block_hi", _REL, "utf8_bw_block_hi", None),
     ],
